@@ -43,6 +43,8 @@ def generate(tier, seed):
              # variables named like tau*'s fresh variables that occur only below a unary minus / only in one literal
              ('p(Z) :- q(-Z).', 'p(X) :- q(0).'), ('p(Z) :- q(-Z).', 'p(X) :- q(-X).'), ('p(Z1) :- q(X, -Z1), X < -Z.', 'p(Y) :- q(X, -Y), X < -Z.'),
              ('p(V1) :- q(-V1).', 'p(X) :- q(-X).'), ('p :- q(-X).', 'p :- q(Y), Y = -X.'),
+             # program variables V<n> with different digit counts
+             ('p(V9) :- q(V9, V10).', 'p(X) :- q(X, X).'), ('p(V9) :- q(V9, V10).', 'p(X) :- q(X, Y).'), ('p(V99, X) :- q(V99, V100, X).', 'p(A, B) :- q(A, C, B).'),
              # ... and a constant that already carries the name the renaming would pick (they were merged until fix 7c0d6c6)
              ('q :- s, hs__s = hs.', 'q :- s.'), ('q :- s, hs__s != hs.', 'q :- s.')]
     n = 150 if tier == 'quick' else 676
